@@ -35,6 +35,23 @@ def parser_check(cid, explanation, extra=(), quick=300, thorough=1800):
                 explanation=explanation)
 
 
+def build_vp_libs(builder, bins):
+    """C19: two tiny shared libraries (libvp_a.so returns 1, libvp_b.so returns 2) next to the driver."""
+    import os, subprocess
+    d = os.path.join(builder.dir(), "vp_libs")
+    os.makedirs(d, exist_ok=True)
+    src = os.path.join(os.path.dirname(os.path.abspath(__file__)), "aux", "vp_lib.c")
+    for name, ret in (("a", 1), ("b", 2)):
+        out = os.path.join(d, "libvp_%s.so" % name)
+        if not os.path.exists(out):
+            r = subprocess.run(["gcc", "-shared", "-fPIC", "-O1", "-DVP_RET=%d" % ret, src, "-o", out + ".tmp"],
+                               stdout=subprocess.PIPE, stderr=subprocess.STDOUT, text=True)
+            if r.returncode:
+                raise RuntimeError("building test library failed: " + r.stdout)
+            os.replace(out + ".tmp", out)
+    return {"VP_LIBDIR": d}
+
+
 CHECKS = {
     "C01": dict(src=["checks/C01.cpp"], nitro=["options", "env"], variants=PLAIN_ASAN, runs=both,
                 deadline_s={"quick": 240, "thorough": 1500}, assumptions=PARSER_ASSUMPTIONS,
@@ -127,4 +144,12 @@ CHECKS = {
                              "grids are small (3-5 values per member); nothing is said about the hash's distribution beyond them"],
                 explanation="exhaustive grids of member tuples; all ordered pairs, all triples, all in-place member changes after hashing; hash "
                             "containers keyed by the types"),
+    "C19": dict(src=["checks/C19.cpp"], nitro=["env"], variants=PLAIN_ASAN, runs=both, deadline_s={"quick": 300, "thorough": 900},
+                libs=["-ldl", "-rdynamic"], prebuild=build_vp_libs,
+                assumptions=["dlopen/dlclose are observed by interposition in the harness executable (the calls come from nitro's inline headers) "
+                             "and the mapping state is asked from the loader with RTLD_NOLOAD; behaviour is that of this image's glibc",
+                             "environment values: byte strings of length <= 3 over 6 bytes (no NUL); the harness owns the process environment",
+                             "a moved-from library / symbol object is destroyed right after the move (using it is not defined)"],
+                explanation="env: exhaustive (name, value, default, overload) grid on the real get(); dl: explicit-state BFS to a fixpoint over "
+                            "open/load/copy/assign/move/call/destroy histories against a per-dlopen reference count"),
 }
